@@ -100,3 +100,29 @@ pub fn oracle_block(headers: &[(String, String)], body: &[u8]) -> Value {
     let js = match oracle_json(body) { Ok(c) => json!({"ok": hex(&c)}), Err(m) => json!({"err": hex(m.as_bytes())}) };
     json!({"mime": mime, "decode": dec, "json": js})
 }
+
+// ---------------------------------------------------------------- reading inputs back (corpus, shrinking)
+pub fn unhex(s: &str) -> Vec<u8> {
+    (0..s.len() / 2).map(|i| u8::from_str_radix(&s[2 * i..2 * i + 2], 16).unwrap()).collect()
+}
+pub fn unhex_str(v: &Value) -> String { String::from_utf8(unhex(v.as_str().unwrap_or(""))).expect("corpus strings are UTF-8") }
+
+pub fn error_from_json(v: &Value) -> HttpError {
+    match v["e"].as_str().unwrap() {
+        "http" => HttpError::Http {
+            code: http_types::StatusCode::try_from(v["code"].as_u64().unwrap() as u16).unwrap(),
+            message: unhex_str(&v["msg"]),
+            body: if v["body"].is_null() { None } else { Some(unhex(v["body"].as_str().unwrap())) },
+        },
+        "json" => HttpError::Json(unhex_str(&v["msg"])),
+        "url" => HttpError::Url(unhex_str(&v["msg"])),
+        "io" => HttpError::Io(unhex_str(&v["msg"])),
+        _ => HttpError::Timeout,
+    }
+}
+
+/// (status, headers, body) of an {"t":"ok",..} value
+pub fn response_parts(v: &Value) -> (u16, Vec<(String, String)>, Vec<u8>) {
+    let hs = v["headers"].as_array().unwrap().iter().map(|h| (unhex_str(&h[0]), unhex_str(&h[1]))).collect();
+    (v["status"].as_u64().unwrap() as u16, hs, unhex(v["body"].as_str().unwrap_or("")))
+}
